@@ -45,7 +45,8 @@ def gen_case(rng, writes_only=False, maxlen=15):
         budget -= adv
         cmds.append([adv, gen_cmd(rng, keys, reads=not writes_only)])
     return {"mode": rng.choice(["fast", "locked", "serializable"]), "init": init, "cmds": cmds,
-            "ending": rng.choice(["commit", "commit", "commit", "rollback", "raise", "cancel"]), "nested": rng.random() < 0.25}
+            "ending": rng.choice(["commit", "commit", "commit", "rollback", "raise", "cancel"]),
+            "nested": rng.choice([False, False, False, False, "fresh", "same", "same_twice"])}
 
 
 async def _apply(cache, c):
@@ -92,14 +93,21 @@ def run(case):
         mode = {"fast": TransactionMode.FAST, "locked": TransactionMode.LOCKED, "serializable": TransactionMode.SERIALIZABLE}[case["mode"]]
         steps, anomaly = [], None
         try:
-            async with cache.transaction(mode=mode) as tx:
+            uow = cache.transaction(mode=mode)
+            nested = case["nested"]          # False | True/"fresh": a new context object per inner block | "same": the outer object re-entered
+            async with uow as tx:
                 half = len(case["cmds"]) // 2
                 for i, (adv, c) in enumerate(case["cmds"]):
                     if adv: await asyncio.sleep(adv * TICK)
                     t = tick()
-                    if case["nested"] and i >= half:
-                        async with cache.transaction(mode=mode):
-                            r = await _apply(cache, c)
+                    if nested and i >= half:
+                        inner = uow if nested in ("same", "same_twice") else cache.transaction(mode=mode)
+                        async with inner:
+                            if nested == "same_twice":
+                                async with uow:
+                                    r = await _apply(cache, c)
+                            else:
+                                r = await _apply(cache, c)
                     else:
                         r = await _apply(cache, c)
                     steps.append([t, c, r, snap()])
